@@ -64,7 +64,7 @@ def seq_spec(prop, sweep, quick, thorough, rule, after_op=None, tier_kw=None, pr
             rule,
             "sequential-history",
             components_stub=STUBS,
-            fault_kinds=["op_reopen", "op_clear", "recovered_crash_states", "recovered_disk_full_states", "abandoned_requests", "requests_retried_after_recovery", "input_stream_faults", "query_requests_abandoned", "rule_installations_abandoned", "clear_with_unfinished_request", "clear_requests_failing_half_way"],
+            fault_kinds=["op_reopen", "op_clear", "recovered_crash_states", "recovered_disk_full_states", "recovered_io_error_states", "abandoned_requests", "requests_retried_after_recovery", "input_stream_faults", "query_requests_abandoned", "rule_installations_abandoned", "clear_with_unfinished_request", "clear_requests_failing_half_way"],
             assumptions=ASSUME,
             **kw
         )
@@ -126,6 +126,13 @@ def _gen_C14(rng, tier, seed):
         c["config"]["backend"] = rng.choice(["sim", "real"])
     elif rng.random() < 0.15:
         c["reopen_with_fewer_rules"] = rng.choice([1, 1, 2])
+    elif rng.random() < 0.12:
+        # the caller goes on reading from the same object after the OS refused one of its writes
+        import errno
+
+        c["ops"] = [o for o in c["ops"] if o["op"] not in ("reopen", "reopen_older_release", "reopen_overwrite")][:14]
+        c["config"]["backend"] = "sim"
+        c["failed_request"] = {"frac": rng.random(), "errno": rng.choice([errno.ENOSPC, errno.EIO]), "torn": rng.choice([0, 0, 8, 64, 100])}
     elif rng.random() < 0.3:
         # queries on the state a process finds after a dirty stop
         c["ops"] = [o for o in c["ops"] if o["op"] != "reopen"][:12]
@@ -144,7 +151,7 @@ register(
         "seeded states (file back-end on SimDisk, memory back-end, or - 30% of file runs - the states a process finds after a crash cut of the write log) x every read-only entry point (~45 methods, present / absent / unknown arguments, valid and stale tokens, generators abandoned half-way); non-trivial when the state holds pages and webentities; distinct = distinct event digests",
         "sequential-history + read-only call sweep",
         components_stub=STUBS,
-        fault_kinds=["queries", "query_refused", "query_returned", "crash_states_queried", "crash_states_with_one_store_behind"],
+        fault_kinds=["queries", "query_refused", "query_returned", "crash_states_queried", "crash_states_with_one_store_behind", "states_after_a_refused_write"],
         assumptions=["the simulated disk's write log sees every write the library issues (all file I/O goes through the seam)"],
     )
 )
